@@ -39,19 +39,19 @@ CLAIMED.update({
  "C13": dict(level="other", design="§2 C13", technique="static analysis: lint over the arms of `impl Display for SymbolKind` (syntax tree) + cache-key construction sites in macro_expand",
    text="Decides the distinguishability of expansion cache keys (a necessary condition of 'distinct instantiations never interfere'): no arm renders as a bare identifier, composite renderings contain a non-identifier character, keys come from canonical_form(). Language/value equivalence of expansions is NOT decided.",
    note="trusted: syn parse"),
- "C19": dict(level="other", design="§2 C19", technique="static analysis: deviance lint over all code-emission templates (location projections `.0`/`.2` and `*&Location` must be cloned)",
-   text="Decides one clause: generated code demands only Clone of the user's location type (the documented bound). Type inference and compilation of arbitrary grammars are NOT decided.",
+ "C19": dict(level="other", design="§2 C19", technique="static analysis: deviance lint over all code-emission templates (location projections `.0`/`.2` and `*&Location` must be cloned) + value-flow / exhaustiveness rules on rustc MIR (type-parameter filter, pattern traversals)",
+   text="Decides three clauses: generated code demands only Clone of the user's location type (the documented bound); the type parameters kept for the generated symbol enums derive from the symbol types only (not from where-clauses); every traversal that reports `<T>` bindings of a pattern visits every pattern form that can hold one. Type inference and compilation of arbitrary grammars are NOT decided.",
    note="trusted: syn parse of the generator sources"),
  "C24": dict(level="proof", design="§2 C24", technique="static analysis: rustc field-read facts (who reads the three flags, taint of the values read) + syntax-tree guard analysis of every emission under a flag guard (comment-only / whitespace-only / nothing), Display-impl classification",
    text="Whole property at template level: every obligation (each flag read, each guarded emission, each then/else pair, each instantiation of the row writer, the report region) is discharged; the flags can only add or remove `//` comments and white space, so the token stream is unchanged.",
    note="assumes values formatted into comment lines render on one line; trusted: rustc MIR field resolution, syn guard stacks"),
  "C25": dict(level="other", design="§2 C25", technique="static analysis: lint over name-synthesis sites of the normalisation passes (syntax tree with call chains): invented nonterminal/binding names must carry the grammar prefix or a non-identifier character",
-   text="Decides the clause 'names invented by normalisation cannot be written by a user'. Three known findings (precedence level names, repeat bindings v/e) are genuine defects recorded in known_findings.json. Hygiene of local binders inside emitted bodies is NOT decided.",
+   text="Decides the clause 'names invented by normalisation cannot be written by a user'. Three known findings (precedence level names, repeat bindings v/e) are genuine defects recorded in known_findings.json. Also decides, on MIR, that parse_grammar's prefix search tests the whole input after every extension and returns only when the prefix is absent, and that util::Escape never copies its escape introducer. Hygiene of local binders inside emitted bodies is NOT decided.",
    note="trusted: syn parse + call-chain extraction"),
 })
 CLAIMED.update({
  "C05": dict(level="other", design="§2 C05", technique="static analysis: value-flow rule on the MIR of unrecognized_token_error and its callers + template wiring rules (override -> simulation over TERMINAL) + sibling rule across backends",
-   text="Decides which computation is wired in: the runtime fills `expected` from expected_tokens_from_states(whole stack), the generated override filters TERMINAL through the accepts simulation, TERMINAL excludes exactly the error column; a backend not using the simulation is reported (known finding: recursive ascent). Validity of each listed terminal is NOT decided.",
+   text="Decides which computation is wired in: the runtime fills `expected` from expected_tokens_from_states(whole stack), the generated override filters TERMINAL through the accepts simulation, TERMINAL excludes exactly the error column; the generated accepts simulation keeps a real stack (own copy, pop states_to_pop, push goto state); a backend not using the simulation is reported (known finding: recursive ascent). Validity of each listed terminal is NOT decided.",
    note="trusted: rustc MIR; syn parse"),
  "C11": dict(level="other", design="§2 C11", technique="static analysis: unit-consistency (alphabet) rule on the MIR of lexer::nfa::Nfa::expr: Test constructors tagged BYTE/SCALAR by parameter type, arms identified by enum downcasts, build alphabet from the crate's cfg",
    text="Decides one necessary clause: all NFA edge labels of a build live in one alphabet (literals vs classes). Equivalence of the overlap computation with the runtime matcher is NOT decided.",
@@ -88,7 +88,7 @@ NA.update({
 })
 CLAIMED.update({
  "C12": dict(level="other", design="§9.5 C12", technique="static analysis: symbolic evaluation / value-flow over the MIR of normalize::precedence (the associativity table in expand_nonterm, the substitution step replace_symbol, the direction folds, Assoc::from_str / Default)",
-   text="Decides the structural clause behind the documented tiers: left/right/none/all map to (OneThen(current,previous),Forward) / (same,Backward) / Every(previous) / Every(current); replace_symbol rewrites and steps the state as documented; Forward/Backward fold over iter_mut()/.rev(); the keywords and the default `all`; levels sorted and deduplicated. Language equivalence with the documented grammar is NOT decided.",
+   text="Decides the structural clause behind the documented tiers: left/right/none/all map to (OneThen(current,previous),Forward) / (same,Backward) / Every(previous) / Every(current); replace_symbol rewrites and steps the state as documented; Forward/Backward fold over iter_mut()/.rev(); the keywords and the default `all`; a precedence attribute always resets the associativity and attribute extraction does not depend on attribute order; levels sorted and deduplicated. Language equivalence with the documented grammar is NOT decided.",
    note="trusted: rustc MIR; term evaluator"),
 })
 NA.pop("C12", None)
